@@ -93,6 +93,9 @@ func (Logout) Run(c *orch.Case) *orch.Outcome {
 		if in.Dest == "other" {
 			rootSpec.Destination = idp.S("https://evil.example/slo")
 		}
+		if in.Dest == "near" {
+			rootSpec.Destination = idp.S(nearMiss(world.SLO, rng))
+		}
 		root = b.ResponseEl(rootSpec)
 		b.Decorate(root)
 		switch in.Sig {
